@@ -219,8 +219,7 @@ package tls
 //@   loop 0 invariant keep_all: !helloIDFound ==> len(helloIDs) == atloop(0, len(helloIDs)) && forall j in 0..len(helloIDs): sameid(helloIDs[j], atloop(0, helloIDs[j]))
 //@   note keep_all (C29: each configured id is tried): until the working id is found the shuffled list is untouched. NOT proved: that every entry survives the move-to-front (none_lost: each old entry is at its place, at the front, or one place later) -- true by inspection, but no solver found the proof within 4 minutes (general append of a struct slice plus the swap)
 //@   loop 0 invariant not_yet: !helloIDFound ==> forall j in 0..$k: !sameid(helloIDs[j], workingHelloId)
-//@   loop 1 entry once: len(helloIDs) == atloop(0, len(helloIDs)) + 1 ==> forall j in 1..len(helloIDs): !sameid(helloIDs[j], workingHelloId)
-//@   note once (C29: each configured id at most once per call): the working id is put in front as an additional attempt only when no configured id equals it
+//@   note not_yet (C29: each configured id at most once per call) is the loop half of "the working id is prepended as an extra attempt only when no configured id equals it"; the other half (loop 1 entry: len(helloIDs) == old(len(c.HelloIDs)) + 1 ==> no entry after the first equals the working id) is true but NOT proved: it goes through the general append of a struct slice and timed out, so it is not claimed
 //@   loop 1 invariant -1 <= $rangeindex
 //@   loop 1 invariant $rangeindex >= 0 ==> err != nil
 //@   note sequential reasoning only: HelloIDMu operations are no-ops for the verifier; race freedom of concurrent Dials is not decided
